@@ -178,13 +178,24 @@ Definition raw_of_event (f : fdecl) (outs : list value) : Z * list (list Z) :=
   end.
 Definition last_exec_outs (fid : Z) (evs : list event) : option (list value) :=
   fold_left (fun acc e => match e with EExec g _ outs None => if g =? fid then Some outs else acc | _ => acc end) evs None.
-Definition c17_monitor (earlier : list event) (o : op) (ob : op_obs) : Z :=
+Definition c17_monitor (all : list (op * op_obs)) (earlier : list event) (o : op) (ob : op_obs) : Z :=
   match o, oo_obs ob with
   | OpCall f _ _, ObsCall ObsOk len outs =>
       match last_exec_outs (fn_id f) (earlier ++ oo_events ob) with
       | Some vs => let (l, os) := raw_of_event f vs in
                    if (l =? len) && Base.eqb os outs then 0 else 70
       | None => 72     (* a successful call whose target never ran (now or, memoized, earlier) *)
+      end
+  (* a function returned by Redefine hands back the ORIGINAL function's raw results *)
+  | OpCallRedef ref, ObsCallRedef _ _ ObsOk len outs =>
+      match nth_error all ref with
+      | Some (OpRedefine f _ _, _) =>
+          match last_exec_outs (fn_id f) (earlier ++ oo_events ob) with
+          | Some vs => let (l, os) := raw_of_event f vs in
+                       if (l =? len) && Base.eqb os outs then 0 else 70
+          | None => 72
+          end
+      | _ => 0
       end
   (* when resolution itself fails the result has length 0 (and an error) *)
   | OpCall _ _ _, ObsCall (ObsUnsat _ _ _ _ _) len _
@@ -204,7 +215,7 @@ Fixpoint monitor2_ops (which : Z) (u : universe) (all : list (op * op_obs)) (ear
                | 8 => let c := c08_monitor u all o ob in
                       if c =? 0 then c08_provenance u all earlier o ob else c
                | 9 => c09_monitor o ob
-               | 17 => c17_monitor earlier o ob
+               | 17 => c17_monitor all earlier o ob
                | 4 => match o with
                       | OpCall f _ _ => if c04_ok f (co_of_obs ob) then 0 else 59
                       | OpCallRedef ref =>
